@@ -326,6 +326,15 @@ impl Bmi2BlockOps {
         let chunk_size = caps.chunk_size.min(256); // Reasonable chunk size for rank
         
         let mut results = Vec::with_capacity(positions.len());
+
+        // Set bits before each word; the last entry is the total
+        let mut ones_before = Vec::with_capacity(words.len() + 1);
+        let mut total_ones = 0usize;
+        for &word in words {
+            ones_before.push(total_ones);
+            total_ones += word.count_ones() as usize;
+        }
+        ones_before.push(total_ones);
         
         for chunk in positions.chunks(chunk_size) {
             Self::prefetch_words(words, chunk);
@@ -335,10 +344,12 @@ impl Bmi2BlockOps {
                 let bit_offset = pos % 64;
                 
                 if word_idx < words.len() {
-                    let rank = Bmi2BitOps::rank1_optimized(words[word_idx], bit_offset);
+                    let rank = ones_before[word_idx]
+                        + Bmi2BitOps::rank1_optimized(words[word_idx], bit_offset);
                     results.push(rank);
                 } else {
-                    results.push(0);
+                    // At or past the end: every set bit lies before the position
+                    results.push(total_ones);
                 }
             }
         }
